@@ -3,7 +3,7 @@ import sys
 
 from hypothesis import strategies as st
 
-from . import gen, drv, ref_ber, ref_oer, pipeline, valcheck, runner
+from . import gen, drv, ref_ber, ref_oer, ref_per, pipeline, valcheck, runner
 from .common import h, KNOWN
 from .c03 import ListChooser
 from .model import val_to_json, val_from_json
@@ -67,6 +67,23 @@ def run_case(sess, mod, tname, t, x, feats, acc):
     for s in ("oer", "uper", "xer"):
         if r.get(s) not in (None, "fail", "nocodec", "badsyntax"):
             encs[s] = drv.unhex(r[s])
+    # for every other history the BER/UPER/OER encodings come from the reference encoders with the additions of a
+    # "later version" in them (unknown extension additions are skipped on paths of their own)
+    if sum(len(str(h_)) for h_ in history) % 2 == 0:
+        from .c03 import ListChooser as _LC
+        for s_, enc_, label in (("ber", ref_ber.encode, "unknown-ext"), ("uper", ref_per.encode, "per-unknown-ext"),
+                                ("oer", ref_oer.encode, "oer-unknown-ext")):
+            if s_ not in encs:
+                continue
+            try:
+                ch_ = _LC(["force:%s=1" % label, 1, 2, 1])
+                ch_.no_mixed_chain = True
+                e_ = enc_(mod, t, v, ch_)
+                if ch_.used.get(label):
+                    encs[s_] = e_
+                    acc.extra["encodings_with_unknown_extension_additions"] += 1
+            except Exception:       # RefExcluded and friends: keep the library's encoding
+                pass
     steps = []
     pending = None          # (syntax, rest) after a prefix decode
     nontrivial = False
